@@ -145,6 +145,7 @@ class Prov:
         self._memo = {}
         self._busy = set()
         self._effects = None
+        self.discr_adt = {}   # ('discr', T) term -> path of the enum whose discriminant is read
 
     # ---- definitions and reaching-definitions --------------------------------
     def _collect_defs(self):
@@ -360,7 +361,10 @@ class Prov:
         if k == "unop":
             return fold(("unop", rv["op"], self.operand_term(rv["a"], bb, idx)), self.prog)
         if k == "discr":
-            return fold(("discr", self.place_term(rv["place"], bb, idx)), self.prog)
+            dt = fold(("discr", self.place_term(rv["place"], bb, idx)), self.prog)
+            if dt[0] == "discr" and rv.get("adt"):
+                self.discr_adt[dt] = rv["adt"]
+            return dt
         if k == "aggr":
             ops = tuple(self.operand_term(o, bb, idx) for o in rv["ops"])
             kind = rv["kind"]
